@@ -88,6 +88,7 @@ type Setting struct {
 	NoAccess   bool   `json:"no_body_access,omitempty"`
 	BodyLimit  int    `json:"body_limit,omitempty"`  // SecRequestBodyLimit (0 = default)
 	BodyAction string `json:"body_action,omitempty"` // Reject | ProcessPartial
+	MemLimit   int    `json:"mem_limit,omitempty"`   // SecRequestBodyInMemoryLimit (0 = default): larger bodies are buffered in a file
 }
 
 // Case is one replayable scenario.
@@ -151,6 +152,9 @@ func conf(s Setting) string {
 	}
 	if s.BodyLimit > 0 {
 		fmt.Fprintf(&sb, "SecRequestBodyLimit %d\nSecRequestBodyInMemoryLimit %d\nSecRequestBodyLimitAction %s\n", s.BodyLimit, s.BodyLimit, s.BodyAction)
+	}
+	if s.MemLimit > 0 {
+		fmt.Fprintf(&sb, "SecRequestBodyInMemoryLimit %d\n", s.MemLimit)
 	}
 	// processor selection exactly as in coraza.conf-recommended, plus explicit forcing through X-Proc / X-Force
 	sb.WriteString(`SecRule REQUEST_HEADERS:Content-Type "^(?:application(?:/soap\+|/)|text/)xml" "id:200000,phase:1,t:none,t:lowercase,pass,nolog,ctl:requestBodyProcessor=XML"` + "\n")
